@@ -325,6 +325,7 @@ static std::vector<std::vector<uint64_t>> &basis_space(int kind)
     return sp;
 }
 
+#ifndef PBT_NO_MAIN
 int main(int argc, char **argv)
 {
     for (int i = 1; i + 1 < argc; i++) if (std::string(argv[i]) == "--level") g_level = atoi(argv[i + 1]);
@@ -357,3 +358,4 @@ int main(int argc, char **argv)
     props.push_back({"c19.history", [] { return gen_history(); }, body_history, 1, true, desc_history, 100});
     return pbt::harness_main(argc, argv, "h_ntt", props);
 }
+#endif // PBT_NO_MAIN
